@@ -13,16 +13,21 @@ Render -> parse round trips, every sub-space enumerated completely against the r
                                         ref/c15_ini_model.py (cross-checked against a second formulation and configparser)
   search-*   keyword_search             row sets x kwargs sets against a conjunction-of-predicates reference
 
-Weaker readings taken (the statement is loose there), all in ref/c15_*.py next to the code:
-  * an all-empty table row renders as a blank line and is not expected back;
-  * key order inside a row dict is not checked; with ordered=True a re-assigned key may sit at its first
-    or its last position;
-  * comment_char=None means "the caller has no comment syntax": blank lines are then not in the alphabet;
-  * INI continuation pieces may be joined by any white space; indented comment lines are not in the alphabet
-    (the format's continuation rule claims indented lines);
-  * keyword_search: with row_keys_change=False both the documented answer (only the first row's keys are
-    searchable) and the literal one are accepted; string matchers are only applied to string operands;
-    a shared `parent` is only reused for row sets with the same keys.
+Readings (audited against mc/LESSONS.md; the statement decides wherever it speaks):
+  * decided by the statement: an all-empty table row renders as a blank line and "blank lines never contribute
+    data" -> not expected back; cells come back in header order inside a row; with ordered=True a re-assigned key
+    keeps its FIRST position (a later duplicate "overrides", i.e. takes the place of, the earlier one); blank lines
+    contribute nothing also when comment_char=None; an indented "#"/";" line is a commented line; a `parent`
+    object does not change what keyword_search returns (two-step histories incl. rows with other keys);
+  * outside the quantifier (not enumerated): duplicate header names (a dict cannot return both cells), cells wider
+    than their column / right-aligned columns / quoted delimiters (the helpers document left-justified, unquoted
+    formats), brackets in section names (the grammar rejects them), bare option names without allow_no_value,
+    string matchers on non-string operands ("parsed rows" hold strings; None never matches), row keys that
+    collide after normalisation (the condition is ambiguous), empty kwargs, empty option-list items;
+  * statement silent, leniency kept: INI continuation pieces may be joined by any white space (only for options
+    that have a continuation line); inline "#" inside INI values is not enumerated; with row_keys_change=False
+    and a later row that has a key the first row lacks (the caller broke the documented promise) both the
+    documented and the literal answer are accepted.
 """
 import itertools
 
@@ -53,7 +58,7 @@ BOUNDS = {
                  "ini_sections": 2, "ini_opts_per_block": 2, "ini_default_opts": 3, "ini_fillers": 2,
                  "search_rows": 3, "search_conditions": 2},
 }
-CAP_S = {"quick": 120, "thorough": 1500}
+CAP_S = {"quick": 150, "thorough": 3000}     # wall guards for a heavily shared machine (quick ~105 CPU-s, thorough ~2400 CPU-s)
 
 
 _IMP = None
@@ -828,7 +833,9 @@ def search_cases(unit, tier):
             # one row from the full universe alone, before and after every row of the small universe
             sets = [[first]] + [[first, r] for r in small] + ([[r, first] for r in small] if first not in small else [])
         else:
-            sets = ([first] + list(t) for n in range(0, maxrows) for t in itertools.product(shapes, repeat=n))
+            # <= 2 rows over the full universe; a third row from the small universe
+            sets = itertools.chain([[first]], ([first, r] for r in shapes),
+                                   ([first, r, q] for r in shapes for q in small) if maxrows >= 3 else ())
         for rows in sets:
             for c in conds:
                 if not T.search_defined(rows, [c]):
@@ -843,7 +850,7 @@ def search_cases(unit, tier):
         if tier == "quick":
             conds = conditions(pair, ["x", None], ["x"], absent=False)
         else:
-            conds = conditions(pair, S_VALUES, S_STR)
+            conds = conditions(pair, ["x", "", None, 1], ["x", "X", ""], absent=False)
         ksets = [k for k in kwarg_sets(conds, 2) if len(k) == 2]
         for rows in ([first] + list(t) for n in range(0, 2) for t in itertools.product(shapes, repeat=n)):
             for k in ksets:
@@ -899,8 +906,8 @@ def units(tier, seed):
         if tier == "quick" and len(hs) >= 3 and ("" in hs or "C 1" in hs):
             continue                                   # quick: three columns over the plain headings only
         if len(hs) >= 3 and tier != "quick":
-            for d in (None, ",", "|", ":"):
-                us.append({"part": "delim", "headers": hs, "delims": [d]})
+            for ds in ([None, ","], ["|", ":"]):
+                us.append({"part": "delim", "headers": hs, "delims": ds})
         else:
             us.append({"part": "delim", "headers": hs, "delims": [None, ",", "|", ":"]})
     us.append({"part": "kv", "prefix": None})
@@ -1044,7 +1051,7 @@ def run_unit(unit, tier):
 TECHNIQUE = ("bounded exhaustive render->parse enumeration of tables, key/value documents, INI documents and row searches "
              "executed against the real helpers, compared with statement-level reference models (INI model cross-checked "
              "against a second formulation and stdlib configparser)")
-LEVEL_TEXT = ("Every document of each stated finite sub-space (fixed-width tables up to 2/3 columns with every ordered header "
+LEVEL_TEXT = ("Every document of each stated finite sub-space (fixed-width tables up to 4 columns with every ordered header "
               "choice incl. substring-related headers, delimited tables over every option combination, key/value documents up "
               "to 4/5 lines over 13 sharp line symbols, INI documents with up to 2 sections + DEFAULT, duplicate and "
               "case-variant options, fillers at every position, and keyword searches over every matcher suffix) is rendered "
